@@ -510,10 +510,38 @@ func ruleStepSafety(c *Ctx) {
 	c.Check(len(callsIn(tl, false, isL)) > 0, rule, "TransferLeader.CheckSafety", "refuses a learner as new leader", P.pos(tl.Pos()), "")
 }
 
+// rulePlanPriority: without joint consensus the planner applies one change at
+// a time; the voter count stays at or above min(original, target) only because
+// a change that lowers it (demote, remove) is considered after every change
+// that keeps or raises it (replace, promote) has nothing left to do.
+func rulePlanPriority(c *Ctx) {
+	P := c.P
+	rule := c.Prop + "/plan-priority"
+	const opk = "server/schedule/operator"
+	pp := P.Method(opk, "Builder", "peerPlan")
+	plan := func(m string) Callee { return F(P.Method(opk, "Builder", m)) }
+	isEmpty := F(P.Method(opk, "stepPlan", "IsEmpty"))
+	exhausted := func(m string) Ev {
+		p := plan(m)
+		return guardCall(m+" has nothing to do", true, func(cl *ssa.Call) bool {
+			if !isEmpty.Match(cl.Common()) {
+				return false
+			}
+			recv := callRecv(cl.Common())
+			return recv != nil && derivesFrom(recv, resultOfCall(p), 4)
+		})
+	}
+	for _, lowering := range []string{"planDemotePeer", "planRemovePeer"} {
+		c.need(rule, pp, "call "+lowering, instrCallMatcher(plan(lowering)), []Ev{exhausted("planReplace"), exhausted("planPromotePeer")}, all,
+			"a voter is demoted or removed only when no replace and no promotion is pending (promotions first keeps the voter count from dipping)")
+	}
+}
+
 func init() {
 	register("C08", "Generated operator steps are safe and reach the requested placement", func(c *Ctx) {
 		c.Group("C08/planner-state", "steps are emitted only by the exec helpers, each of which applies its step to the simulated region state and consumes the pending task, on every path", func() { ruleBuilderState(c) })
 		c.Group("C08/leader-candidates", "target leaders and planned hand-over leaders passed allowLeader and are never the store being removed/demoted; allowLeader rejects learners, demoting voters and unknown stores; hand-over precedes demote/remove", func() { ruleLeaderCandidates(c) })
+		c.Group("C08/plan-priority", "one-at-a-time planning considers demote/remove only after replace and promote are exhausted", func() { rulePlanPriority(c) })
 		c.Group("C08/replace-plans", "a replace plan never adds on the store it removes from", func() { ruleReplacePlans(c) })
 		c.Group("C08/joint-ordering", "joint consensus: enter/leave without inner transfer only when the leader of that moment stays a voter; enter → transfer → leave; removals last", func() { ruleJointOrdering(c) })
 		c.Group("C08/prepare", "requests without voters or with a disallowed leader are rejected; steps only from a validated request; an operator only after successful planning", func() { rulePrepareBuild(c) })
